@@ -28,7 +28,7 @@ Init == /\ pid \in 1..N
         /\ fld \in FieldsOf[pid]
         /\ val \in ValsOf[pid][fld]
         /\ mode \in {"matched", "merged"}
-        /\ w = [blk |-> 0, frames |-> << >>, visited |-> {0}]
+        /\ w = [blk |-> 0, frames |-> << >>, visited |-> {0}, depth |-> 0]
         /\ status = "run"
 
 Next == /\ status = "run"
